@@ -32,6 +32,11 @@ Expected(e, da, db) ==
     [] e.op = "sub" -> RSub(da, db)
     [] e.op = "mul" -> RMul(da, db)
     [] e.op = "div" -> RDiv(da, db)
+    \* reflected forms: the NUMBER b stands on the left (python calls __radd__, __rsub__, __rmul__, __rtruediv__ of a)
+    [] e.op = "radd" -> RAdd(db, da)
+    [] e.op = "rsub" -> RSub(db, da)
+    [] e.op = "rmul" -> RMul(db, da)
+    [] e.op = "rdiv" -> RDiv(db, da)
     [] e.op = "neg" -> RNeg(da)
     [] e.op = "pos" -> da
     [] e.op = "inv" -> RInv(da)
@@ -40,7 +45,7 @@ Expected(e, da, db) ==
 PolyVerdict(e) ==
   LET da == DenV(e.cls, e.a)
       db == IF e.bnum THEN <<PConst(e.b[1]), PConst(e.b[2])>> ELSE DenV(e.bcls, e.b)
-      undefined == (e.op \in {"div"} /\ RIsZero(db)) \/ (e.op = "inv" /\ RIsZero(da)) \/ (e.op = "pow" /\ e.n < 0 /\ RIsZero(da))
+      undefined == (e.op \in {"div"} /\ RIsZero(db)) \/ (e.op = "rdiv" /\ RIsZero(da)) \/ (e.op = "inv" /\ RIsZero(da)) \/ (e.op = "pow" /\ e.n < 0 /\ RIsZero(da))
   IN
   IF undefined THEN "ok"                                  \* division by the zero function: outside the domain
   ELSE IF e.raised # "" THEN "operation_raised"
